@@ -570,6 +570,9 @@ var depthGens = []depthGen{
 	{name: "if-in-else", make: func(n int) string { return nest("if false { 0 } else { ", "1", " }", n) + ";" }},
 	{name: "if-in-condition", make: func(n int) string { return "let x = " + rep("if ", n) + "true" + rep(" { true } else { false }", n) + ";" }},
 	{name: "match-nest", make: func(n int) string { return "let x = " + nest("match 1 { 1 => ", "0", ", _ => 2 }", n) + ";" }},
+	{name: "match-default-nest", make: func(n int) string { return "let x = " + nest("match 1 { 1 => 0, _ => ", "2", " }", n) + ";" }},
+	{name: "match-default-block-nest", make: func(n int) string { return nest("match 1 { 1 => { }, _ => { ", "1;", " } }", n) }},
+	{name: "match-every-arm-nest", make: func(n int) string { return "let x = " + nest("match 1 { _ => ", "2", " }", n) + ";" }},
 	{name: "match-control-nest", make: func(n int) string { return "let x = " + rep("match ", n) + "1" + rep(" { 1 => 1, _ => 2 }", n) + ";" }},
 	{name: "loop-nest", make: func(n int) string { return nest("loop { ", "break;", " }", n) }},
 	{name: "while-nest", make: func(n int) string { return nest("while true { ", "break;", " }", n) }},
